@@ -3,7 +3,7 @@
    dead_sound: no word of the content model dominates the children), ALIVE only by a checked witness (witness_sound).
    Refutations: states the faithful model accepts although they are provably dead. *)
 From MX Require Import Spec.Particle Spec.Deriv Spec.Parikh Gen.Names Gen.Templates Gen.Schema Gen.Lib Model.Tables Model.PyM Model.PyObs
-  Model.AbsSeq Model.AbsSeqC02 Model.Classes Model.SeqMachine Model.SeqComplete.
+  Model.AbsSeq Model.AbsSeqC02 Model.Classes Model.SeqMachine Model.SeqComplete Model.ChoiceSeq Model.ChoiceClass Model.ChoiceC02 Model.ChoiceComplete.
 From Coq Require Import List Bool Arith.
 Import ListNotations.
 
@@ -30,6 +30,19 @@ Qed.
 Print Assumptions C07_partial_seq.
 Example C07_nonvacuous : Nat.leb 55 (List.length (filter (fun kl => Classes.is_seq (snd kl)) lib_templates)) = true.
 Proof. vm_compute. reflexivity. Qed.
+
+(* the same on the choice machine, for the eight exclusive-choice types: every reachable state (a released optional choice that is now
+   demanded, a sequence branch that stays chosen after its children were removed, ...) has a completion whose adds are all accepted *)
+Theorem C07_partial_choice : forall k l t, In (k, l) lib_templates -> is_cseq l = true -> slots_of l = Some t -> forallb c07_ok t = true ->
+  forall ops, exists ext,
+    Forall (fun o => o = MOk) (couts (cmrun t ops) (map MAdd ext)) /\ cverdict_ok (fold_left (fun s o => fst (cstep s o)) (map MAdd ext) (cmrun t ops)) = true.
+Proof.
+  intros k l t _ Cs St K ops. destruct (is_cseq_nodup l t Cs St) as [W ND]. apply C07_cmachine; auto.
+Qed.
+Print Assumptions C07_partial_choice.
+Example C07_choice_premises : forallb (fun kl => negb (is_cseq (snd kl)) || match slots_of (snd kl) with Some t => forallb c07_ok t | None => false end) lib_templates = true
+  /\ List.length (filter (fun kl => is_cseq (snd kl)) lib_templates) = 8%nat.
+Proof. vm_compute. auto. Qed.
 
 (* ---- refutations on the faithful model ---- *)
 (* RC1: after replace(step -> octave) the element holds two octaves: accepted, provably dead *)
